@@ -31,11 +31,16 @@ from harness.common import Failure, lean_run
 
 PROP_MODULES = ["ArmiVerif.Props.C09"]
 PARTIAL = ("double->single rounding of rwFloat and the text<->double conversion of ASCII reals are parameters (bit "
-           "patterns are opaque in the model; the ASCII real *writer* is modelled exactly, the ASCII real reader is "
-           "not); DLAYXS's reader-side use of the record count (label length, trailing filler) is checked by the tie "
+           "patterns are opaque in the model; the ASCII real *writer* is modelled exactly and compared byte for byte, the "
+           "ASCII real reader is not modelled: file_roundtrip_ascii_partial covers integer/text fields and framing); "
+           "rewrite_identical is proved per record body (whole-file rewrite is checked by the oracle on every file); "
+           "which records a format's readWrite() emits is not modelled per format - the hypothesis 'readWrite is an RW "
+           "program' is what the reader-trace == writer-trace check establishes on every container; DLAYXS's reader-"
+           "side use of the record count (label length, trailing filler) is outside the RW form and checked by the tie "
            "only; container generators build only what each format's reader accepts (ISOTXS/GAMISO sub-blocking 1, "
            "Legendre blocks of order <= 1, PMATRX without activation records, LABELS without control-rod/burn-up "
-           "records, RTFLUX NDIM >= 2)")
+           "records, RTFLUX NDIM >= 2, GEODST IGOM not in 1..3) - the excluded points are run separately and listed as "
+           "findings")
 ASSUMPTIONS = [
     "IEEE bit patterns: struct.pack('f'/'d') and float()/format(.16E) of the host Python are parameters of the model",
     "little-endian host (struct native byte order), as on every platform armi supports",
